@@ -378,7 +378,8 @@ def shrink(mod, case, div):
         from vf import session
         shrinker = session.shrink
     elif isinstance(case, dict) and case.get('scenario') in (
-            'reentry', 'overtake', 'disable_in_on_add', 'stale-mark'):
+            'reentry', 'overtake', 'disable_in_on_add', 'stale-mark',
+            'nested_batch'):
         shrinker = default_shrink       # small fixed-shape scenarios
     progress = True
     while progress and runs < MAX_SHRINK_RUNS:
